@@ -235,12 +235,11 @@ func adminStep(w *World, ref *pauseRef, nameK int) {
 		}
 	}
 	if err == nil {
-		verif.Cover("message-accepted")
-		verif.Assert(len(w.Ev.list) == evBefore+1, "one-event-per-accepted-message")
+		verif.Cover("message-accepted") // (events are not pinned by the property: not asserted)
 	} else {
 		verif.Cover("message-refused")
-		verif.Assert(len(w.Ev.list) == evBefore, "no-event-for-a-refused-message")
 	}
+	_ = evBefore
 }
 
 // probe sends one transfer to a symbolic destination through the real middleware and checks enforcement.
